@@ -214,10 +214,17 @@ def gen_doc(rng, dup=False, max_paras=4, max_fields=6):
                                   for _ in range(rng.randint(1, 2)))
             segs.append(Seg(comment, gen_body(rng, spelled)))
         paras.append(segs)
+    if npar >= 2 and rng.random() < 0.15:
+        # two paragraphs with identical fields and values (objects that compare equal)
+        src = paras[rng.randrange(npar - 1)]
+        paras[rng.choice([npar - 1, npar - 1, rng.randrange(npar)])] = \
+            [Seg(s.comment, s.body) for s in src]
     seps = [rng.choice(["\n", "\n", "\n\n", " \n", "\t\n", "\n# free comment\n\n",
                         "\n#a\n#b\n \n"]) for _ in range(npar - 1)]
     leading = rng.choice(["", "", "", "\n", "# top comment\n\n", "\n\n"])
-    trailing = rng.choice(["", "", "", "\n", "\n\n", "\n# end comment\n", "# tail\n"])
+    trailing = rng.choice(["", "", "", "\n", "\n\n", "\n# end comment\n", "# tail\n",
+                           # last line blank-only or a comment, and not newline terminated
+                           "  ", "\n# end", "# tail"])
     doc = Doc(leading, paras, seps, trailing)
     if trailing == "" and rng.random() < 0.45:
         last = paras[-1][-1]
@@ -234,6 +241,10 @@ def parse(text, dup=False):
 
 def sut_summary(text, dup=True):
     """Fresh parse with the SUT: [[(name, value)...] per non-empty paragraph]."""
+    if text and not text.endswith("\n") and text.splitlines()[-1].strip() == "":
+        # a blank-only unterminated last line carries no content; terminating it keeps this
+        # comparison clear of the parser's own trouble with that shape (C01, not claimed)
+        text += "\n"
     f = parse(text, dup=dup)
     out = []
     for p in f:
